@@ -665,6 +665,9 @@ class CallsMixin:
                 raise PyRaise('TypeError', None, 'multiple values for %s' % n)
             bound[n] = v
         for n in names:
+            if n not in bound and c.params[n] is None:
+                bound[n] = PyObj('unbound', name=n)
+        for n in names:
             if n not in bound:
                 d = getattr(c, 'defaults', {}).get(n, '<missing>')
                 if d == '<missing>':
